@@ -50,13 +50,56 @@ SEEDS = {
          'an integrity check fires while the workflow is paused; after resume a task stuck RUNNING is never repaired'),
 }
 
+# second wave (independent sub-agents, asked for a different site than wave 1)
+SEEDS.update({
+ 'C01b': ('find_indirectly_affected_task_executions stops at every join (the agent arrived at the same site as the first-wave C02/C04 seeds)',
+          'a join behind a join that is never created (all routes into it switched off by guards); the other inbound branch of the outer join completes and is refreshed first'),
+ 'C02b': ('_merge_ctx hashes the version key before the dict test (hash_version_keys on): nested leaves are looked up under a key nobody wrote',
+          'a dict-valued variable re-published with a changed leaf in one branch and only inherited by the other, merged at a join with the inheriting branch last in row order'),
+ 'C03b': ('_succeed_workflow assigns the evaluated output before the state compare-and-swap',
+          'two transactions overlap (READ COMMITTED): the completion check has read RUNNING, an operator stop commits, the check flushes its output and its swap matches nothing'),
+ 'C04b': ('reverse workflows: _is_satisfied_task reads task_spec.get_requires() (ignores task-defaults requires)',
+          'a reverse workflow whose task-defaults name a required task that is slow or fails'),
+ 'C05b': ('_merge_ctx treats a key whose value is null like a missing key',
+          'a variable re-published as null in one branch and inherited in the other, null-publishing branch last in row order'),
+ 'C06b': ('_run_new guard is_idle -> is_paused_or_idle',
+          'a start_task request redelivered while the task is PAUSED (asynchronous action paused through on_action_update, or paused sub-workflow)'),
+ 'C07b': ('_increase_capacity: capacity < concurrency became <=',
+          'with-items over sub-workflows with a concurrency limit; a failed child is repaired by a rerun of its inner task; the late completion pushes the capacity above the limit and the task never completes'),
+ 'C08b': ('RetryPolicy: continue-on only consulted after a successful attempt',
+          'retry with continue-on evaluating to false and an attempt that fails while retries remain'),
+ 'C09b': ('Task.invalidate_result only un-accepts action executions, not sub-workflow executions',
+          'a sub-workflow task under retry with continue-on repeating a successful child: every attempt stays accepted'),
+ 'C10b': ('_check_affected_tasks returns early for PAUSED workflows',
+          'a join is WAITING (its creation-time refresh already ran), another inbound branch fails during the pause, resume has nothing to dispatch'),
+ 'C11b': ('_fail_workflow guard is_paused_or_completed -> not is_valid_transition(state, ERROR)',
+          'stop(ERROR) repeated on an execution that is already ERROR, or a late unhandleable result after stop(ERROR)'),
+ 'C12b': ('_recursive_rerun returns early when the parent workflow is still RUNNING',
+          'a task inside a sub-workflow is rerun while a sibling branch keeps the parent RUNNING: the parent task stays ERROR'),
+ 'C13b': ('get_scheduled_jobs_to_start: recapture disjunct compares execute_at instead of captured_at',
+          'a job picked up through the store poll (overdue past pickup_job_after) while a second instance polls between capture and delete of the first'),
+ 'C14b': ('DirectWorkflowTaskSpec.get_publish merges the state-specific publish into the long-lived on-complete PublishSpec',
+          'a task with task-level publish and on-complete publish, completed once through the cached spec object, then completed in the other state'),
+ 'C15b': ('delete_environment checks the owner of the first matching row only, then bulk-deletes by name',
+          'two projects own environments of one name, the victim\'s is public, the attacker\'s row is returned first'),
+ 'C16b': ('executions PUT: description guard became an elif of the env guard',
+          'one request carrying state=RUNNING, description and params.env together'),
+ 'C17b': ('delete_cron_trigger: ORM delete returning a constant 1 instead of the DELETE rowcount',
+          'two processors overlap inside delete_cron_trigger (READ COMMITTED): the loser\'s delete matches no row but reports 1'),
+ 'C18b': ('_delete_until_depleted stops after a short batch, but is given max_finished_executions as the batch size',
+          'max_finished_executions > batch_size > 0 and more than one batch of surplus'),
+ 'C19b': ('validate_url returns as soon as the host is on the allow-list',
+          'allowed_hosts configured and an allow-listed host that resolves into a denied network'),
+ 'C20b': ('(see notes.md)', '(see notes.md)'),
+})
+
 
 def main():
     for sid, (change, needs) in SEEDS.items():
         d = os.path.join(ROOT, 'seeded', sid)
         if not os.path.isdir(d):
             continue
-        meta = {'property_id': sid, 'change': change,
+        meta = {'property_id': sid[:3], 'seed': sid, 'change': change,
                 'needs_in_order_to_manifest': needs,
                 'files': sorted(f for f in os.listdir(d)
                                 if f != 'meta.json'),
@@ -69,7 +112,7 @@ def main():
                           r'demo_changed_exit=(\d+)', txt)
             suite = re.findall(r'^(?:\d+ failed, )?\d+ passed.*$', txt, re.M)
             meta['confirmed_here'] = {
-                'how': 'tools/confirm_seed.sh %s: scratch worktree of /repo '
+                'how': 'tools/confirm_seed.sh %s <agent output dir>: scratch worktree of /repo '
                        'HEAD; demonstration on the original tree, then with '
                        'patch.diff applied, then the full unit suite with '
                        'the change (failed tests re-run serially)' % sid,
@@ -83,8 +126,8 @@ def main():
             m = re.search(r'exit (\d+)', txt)
             meta['detection'] = {
                 'cmd': 'git -C <tree> apply seeded/%s/patch.diff; '
-                       'VERIF_TREE=<tree> ./check %s --tier quick' % (sid,
-                                                                       sid),
+                       'VERIF_TREE=<tree> ./check %s --tier quick' % (
+                           sid, sid[:3]),
                 'exit': int(m.group(1)) if m else None,
                 'first_lines': txt.splitlines()[1:6],
             }
